@@ -239,7 +239,18 @@ def render_structured(prog):
     lines = ["rule r {"]
     keys = {}
     for i, it in enumerate(prog, 1):
-        if it["k"] == "branch":
+        if it["k"] == "match":
+            lines.append(f"  match {term(it['tm'])} {{")
+            keys[len(lines)] = [i, 0, 0]
+            for b, cs in enumerate(it["cs"], 1):
+                lines.append(f"    {term(cs['pat'])} => {{")
+                keys[len(lines)] = [i, b, 0]
+                for j, st in enumerate(cs["blk"], 1):
+                    lines.append(f"      {st['k']} {atom(st['a'])};")
+                    keys[len(lines)] = [i, b, j]
+                lines.append("    }")
+            lines.append("  }")
+        elif it["k"] == "branch":
             for b, blk in enumerate(it["bs"], 1):
                 lines.append("  branch {" if b == 1 else "  } along {")
                 keys[len(lines)] = [i, 0, 0]
@@ -266,7 +277,24 @@ def structured_programs(rnd, n):
             k = rnd.choice([1, 2])
             blocks.append([(rnd.choice(ifs) if (j == 0 and rnd.random() < 0.7) or rnd.random() < 0.35 else rnd.choice(thens)) for j in range(k)])
         post = [rnd.choice(ifs) if rnd.random() < 0.4 else rnd.choice(thens) for _ in range(rnd.choice([0, 1, 1]))]
-        out.append(pre + [{"k": "branch", "bs": blocks}] + post)
+        if rnd.random() < 0.35:
+            # a match on an E-valued term instead of the branch
+            V = lambda n: {"op": "var", "n": n}
+            Ap = lambda f, *a: {"op": "app", "f": f, "args": list(a)}
+            tm = rnd.choice([V("x"), V("y"), Ap("h", V("x")), Ap("h", V("y")), Ap("h", Ap("f", V("x")))])
+            w = V("w")
+            extra_if = [{"k": "if", "a": {"t": "pred", "p": "p", "args": [w]}}, {"k": "if", "a": {"t": "eq", "l": w, "r": Ap("f", w)}}]
+            extra_then = [{"k": "then", "a": {"t": "pred", "p": "p", "args": [w]}}, {"k": "then", "a": {"t": "pred", "p": "q", "args": [w, V("y")]}}]
+            conspat = rnd.choice([Ap("Cons", {"op": "wild", "id": []}), Ap("Cons", w), Ap("Cons", w), Ap("Cons", V("x"))])
+            cases = [{"pat": Ap("Nil"), "blk": [rnd.choice(ifs + thens) for _ in range(rnd.choice([0, 1, 1]))]},
+                     {"pat": conspat, "blk": [rnd.choice(ifs + thens + 8 * (extra_if + extra_then)) for _ in range(rnd.choice([1, 1, 2]))]}]
+            if rnd.random() < 0.1:
+                cases.pop(rnd.randrange(2))
+            elif rnd.random() < 0.3:
+                cases.reverse()
+            out.append(pre + [{"k": "match", "tm": tm, "cs": cases}] + post)
+        else:
+            out.append(pre + [{"k": "branch", "bs": blocks}] + post)
     return out
 
 
